@@ -361,6 +361,42 @@ def r4_r5_locks(chk, fx):
             held = held_guards(b, init_in[lk.bb])
             for h in held:
                 edges.setdefault((h, cls), []).append((b.name, lk.loc()))
+    # .. and through the session's own async helpers: a helper that takes a lock, awaited while a guard is held, orders the two locks
+    # just the same (and deadlocks at once when it is the same lock: tokio's Mutex is not re-entrant)
+    def cls_of(body, lk):
+        dty = body.local_ty(lk.dest["l"])
+        return "requests" if "OutstandingRequest" in dty else "rx" if "RecvHandle" in dty else "tx" if "SendHandle" in dty else "other"
+    by_fn = {}
+    for n, body in fx.mir.items():
+        if n.startswith("netconf::session::") and "::tests::" not in n:
+            by_fn.setdefault(n.split("::{closure")[0], []).append(body)
+    acq = {}
+
+    def acquires(fn, depth=0):
+        if fn in acq or depth > 4:
+            return acq.get(fn, set())
+        acq[fn] = set()
+        out = set()
+        for body in by_fn.get(fn, []):
+            for lk in body.calls_to("tokio::sync::Mutex::<T>::lock", user_only=True):
+                out.add(cls_of(body, lk))
+            for c in body.calls():
+                tgt = None if c.macro else (c.rdef if c.rdef in by_fn else c.defn if c.defn in by_fn else None)
+                if tgt is not None and tgt != fn:
+                    out |= acquires(tgt, depth + 1)
+        acq[fn] = out
+        return out
+    for b in bodies:
+        init_in, _ = b.maybe_init()
+        me = b.name.split("::{closure")[0]
+        for c in b.calls():
+            tgt = None if c.macro else (c.rdef if c.rdef in by_fn else c.defn if c.defn in by_fn else None)
+            if tgt is None or tgt == me:
+                continue
+            held = held_guards(b, init_in[c.bb])
+            for h in held:
+                for cls in sorted(acquires(tgt)):
+                    edges.setdefault((h, cls), []).append((b.name, c.loc()))
     chk.extra["lock_order_edges"] = {"%s->%s" % k: v for k, v in edges.items()}
     # acyclic
     nodes = {a for a, _ in edges} | {c for _, c in edges}
